@@ -606,12 +606,13 @@ def redefinition_bad(p, edit, sparse, num):
 def redefinition_stream(ctx, rng):
     """a Panel whose definition is edited between two frequency analyses gives the frequencies of a freshly defined panel
     with the edited data (the mass and stiffness matrices used belong to the definition the panel has NOW)"""
-    for _ in range(ctx.scale(4, 30)):
+    EDITS = ['mu', 'plyt', 'a', 'stack']
+    for t_ in range(ctx.scale(4, 32)):
         p = gen_panel_params(rng)
         p['m'], p['nn'] = rng.randint(3, 4), rng.randint(3, 4)
-        sparse = rng.random() < 0.5
+        sparse = (t_ // len(EDITS)) % 2 == 0 if t_ < 2 * len(EDITS) else rng.random() < 0.5
         num = rng.choice([2, 3, 5])
-        edit = rng.choice(['mu', 'mu', 'plyt', 'a', 'stack'])
+        edit = EDITS[t_ % len(EDITS)]              # every kind of edit on every run
         bad = redefinition_bad(p, edit, sparse, num)
         ctx.evaluations += 1
         if bad and ctx.violation('C06 fails on the implementation: ' + bad,
